@@ -35,7 +35,8 @@ func (eng) Rule() string {
 		"stops: wait until the client is Ready again, then until the system is stable (>=3 'nothing to push' decisions of the server after the " +
 		"last change and no bytes in flight; or an explicit Sync when pushes are off), then compare mirror and source on every synchronised " +
 		"state. Client-side results are compared with the source's traced transition for the same uid, and an Executed mutation must be visible " +
-		"on the mirror at return. Scripted: a mutation reply parked at srv.reply.unlocked while a later push overtakes it. Evaluation = one " +
+		"on the mirror at return. Scripted: a mutation reply parked at srv.reply.unlocked while a later push overtakes it; a client Remove " +
+		"reaching the source while a local Remove of the same state is parked between applying its target and the server tracer's TransitionEnd. Evaluation = one " +
 		"client call or one end-state comparison; distinct non-trivial = distinct (config, push interval, fault, history seed)."
 }
 func (eng) Assumptions() []string {
@@ -125,6 +126,10 @@ func (eng) Cases(seed uint64, tier string) []core.CaseDesc {
 		// tight bursts with "instant" pushes; source changes while the link is down
 		add(cfg{Kind: "burst", PushMs: -1, NoSchema: i%2 == 1}, seed*79+uint64(i))
 		add(cfg{Kind: "downtime", PushMs: []int{1, 20, -1}[i%3], NoSchema: i%2 == 1, Shallow: i%4 == 3}, seed*83+uint64(i))
+	}
+	// a client Remove answered while a local Remove of the same state is in flight
+	for i := 0; i < 2; i++ {
+		add(cfg{Kind: "inflight", PushMs: 20, NoSchema: i%2 == 1}, seed*89+uint64(i))
 	}
 	return cs
 }
@@ -271,6 +276,9 @@ func (eng) Run(c core.CaseDesc, tier string) *core.CaseResult {
 		return res
 	case "burst":
 		runBurst(res, c, cf, r, src, p)
+		return res
+	case "inflight":
+		runInflight(res, c, cf, r, src, tr, p)
 		return res
 	case "downtime":
 		runDowntime(res, c, cf, r, src, p)
@@ -556,6 +564,93 @@ func runBurst(res *core.CaseResult, c core.CaseDesc, cf cfg, r *rand.Rand, src *
 	}
 	res.Key("burst", cf.NoSchema, c.Seed)
 	res.Sample = map[string]any{"kind": "burst", "rounds": 12}
+}
+
+// runInflight: a Remove made through the network machine reaches the source
+// while a local Remove of the same state is between applying its target and
+// the server tracer's TransitionEnd (parked in an earlier tracer's TransitionEnd). Whatever the
+// source answers, an Executed reply has to come with the effect visible.
+func runInflight(res *core.CaseResult, c core.CaseDesc, cf cfg, r *rand.Rand, src *am.Machine, tr *rec.Tracer, p *rpcloop.Pair) {
+	nm := p.C.NetMach
+	if rs := nm.Add1("D", am.A{"uid": rec.NextUid()}); rs != am.Executed || !nm.Is1("D") {
+		res.Inconclusive = "setup: add D through the mirror returned " + rec.ResStr(rs)
+		return
+	}
+	if why := stabilize(p, cf); why != "" {
+		res.Inconclusive = why
+		return
+	}
+	var armed, parked atomic.Bool
+	gate := make(chan struct{})
+	reached := make(chan struct{})
+	// the recording tracer was bound before the server's: parked in its
+	// TransitionEnd, the target is applied and the server's tracer has not
+	// taken its snapshot yet
+	tr.Mx.Lock()
+	tr.OnEnd = func(tx *am.Transition, _ *rec.TxRec) {
+		if tx.Mutation.Type == am.MutationRemove && armed.CompareAndSwap(true, false) {
+			parked.Store(true)
+			close(reached)
+			select {
+			case <-gate:
+			case <-time.After(20 * time.Second):
+			}
+		}
+	}
+	tr.Mx.Unlock()
+	armed.Store(true)
+	localDone := make(chan struct{})
+	go func() { src.Remove1("D", am.A{"uid": rec.NextUid()}); close(localDone) }()
+	select {
+	case <-reached:
+	case <-time.After(10 * time.Second):
+		res.Inconclusive = "the local Remove did not reach TransitionEnd"
+		close(gate)
+		return
+	}
+	type ans struct {
+		rs  am.Result
+		vis bool
+	}
+	ret := make(chan ans, 1)
+	go func() {
+		rs := nm.Remove1("D", am.A{"uid": rec.NextUid()})
+		ret <- ans{rs, nm.Not1("D")}
+	}()
+	var a ans
+	answeredWhileParked := false
+	select {
+	case a = <-ret:
+		answeredWhileParked = true
+		close(gate)
+	case <-time.After(1500 * time.Millisecond):
+		// the source queued it behind the in-flight transition
+		close(gate)
+		select {
+		case a = <-ret:
+		case <-time.After(10 * time.Second):
+			res.Inconclusive = "the client Remove did not return"
+			return
+		}
+	}
+	<-localDone
+	res.Evals++
+	res.Count("client_removes_answered_while_a_local_remove_was_in_flight", 1)
+	res.Key("inflight", cf.NoSchema, answeredWhileParked)
+	if a.rs == am.Executed && !a.vis {
+		res.Violate("C09/not-visible-at-return/remove-answered-by-early-return", fmt.Sprintf(
+			"remove D through the network machine returned Executed while a local Remove of D was between applying its target and TransitionEnd "+
+				"(answered while parked: %v); D was still active on the mirror when the call returned (the source has no transition for it: "+
+				"answered by Remove's early return, the reply carried the tracer's last snapshot)", answeredWhileParked),
+			map[string]any{"config": cf, "source": src.StringAll(), "mirror": nm.StringAll()})
+	}
+	if why := stabilize(p, cf); why != "" {
+		res.Inconclusive = why
+		return
+	}
+	if d := compare(src, p.C, false); d != "" {
+		res.Violate("C09/diverged/inflight", "after quiescence the mirror differs: "+d, map[string]any{"config": cf})
+	}
 }
 
 // runDowntime: the source changes while the link is down and is quiet
